@@ -195,5 +195,5 @@ func TestC09(t *testing.T) {
 		}
 		return c09Case{Seq: seq, ViaEngine: chance(t, "engine", 3)}
 	}
-	runProp(t, "C09", checkC09, exhaustive, part[c09Case]{"long-sequences", scale(3000, 20000), gen})
+	runProp(t, "C09", checkC09, exhaustive, part[c09Case]{"long-sequences", scale(6000, 20000), gen})
 }
